@@ -135,7 +135,7 @@ def apply_contract(interp, c, func, args, kwargs):
         from .models import SIter
         ys = c.yields.make(interp, 'yielded.%s' % c.qname.rpartition(':')[2])
         ghosts = dict(ghosts, yielded=ys)
-        result = SIter(ys, 0)
+        result = SIter(ys, 0, eager=True)
     env2 = _clause_env(bound, ghosts, {'result': result, 'old': old, 'trace': st.trace, 'ghost': st.ghost})
     for name, clause in c.ensures.items():
         if isinstance(clause, tuple):       # (clause, 'effect') : executed for its effect on ghost state
